@@ -56,6 +56,7 @@ func (c *ATConn) QueryContext(ctx context.Context, query string, args []driver.N
 // queryWith runs a query inside the transaction handling of the connection; do sends it to the database
 func (c *ATConn) queryWith(ctx context.Context, query string, args []driver.NamedValue,
 	do func(ctx context.Context, query string, args []driver.NamedValue) (driver.Rows, error)) (driver.Rows, error) {
+	ctx = c.statementContext(ctx)
 	if c.createOnceTxContext(ctx) {
 		defer func() {
 			c.txCtx = types.NewTxCtx()
@@ -101,6 +102,7 @@ func (c *ATConn) ExecContext(ctx context.Context, query string, args []driver.Na
 // execWith runs a statement inside the transaction handling of the connection; do sends it to the database
 func (c *ATConn) execWith(ctx context.Context, query string, args []driver.NamedValue,
 	do func(ctx context.Context, query string, args []driver.NamedValue) (driver.Result, error)) (driver.Result, error) {
+	ctx = c.statementContext(ctx)
 	if c.createOnceTxContext(ctx) {
 		defer func() {
 			c.txCtx = types.NewTxCtx()
@@ -138,6 +140,22 @@ func (c *ATConn) execWith(ctx context.Context, query string, args []driver.Named
 		return nil, err
 	}
 	return ret.GetResult(), nil
+}
+
+// statementContext is the context a statement runs under. A statement of a local transaction that was begun
+// under a global transaction belongs to that global transaction whatever context it is issued with: tx.Exec(query)
+// is tx.ExecContext(context.Background(), query), and without the xid the executors would record no image and no
+// lock key for it - the branch would commit a write that no rollback knows of.
+func (c *ATConn) statementContext(ctx context.Context) context.Context {
+	if tm.IsGlobalTx(ctx) || c.autoCommit || c.txCtx == nil {
+		return ctx
+	}
+	if c.txCtx.TransactionMode != types.ATMode || c.txCtx.XID == "" {
+		return ctx
+	}
+	ctx = tm.InitSeataContext(ctx)
+	tm.SetXID(ctx, c.txCtx.XID)
+	return ctx
 }
 
 // BeginTx
